@@ -32,7 +32,11 @@ type replayer struct {
 }
 
 func newReplayer(cfg Config, overlay map[string]string) *replayer {
-	all, _ := discoverEntries(filepath.Join(cfg.Verif, "harness"))
+	hd := cfg.HarnessDir
+	if hd == "" {
+		hd = filepath.Join(cfg.Verif, "harness")
+	}
+	all, _ := discoverEntries(hd)
 	return &replayer{cfg: cfg, overlay: overlay, bins: map[string]string{}, buildLog: map[string]string{}, all: all}
 }
 
@@ -170,7 +174,7 @@ func (r *replayer) run(pkgDir, entry string, script []byte, logPath string, time
 	defer cancel()
 	cmd := exec.CommandContext(ctx, bin, "-test.run", "^TestZZReplay$", "-test.count=1", "-test.v", "-test.timeout", (timeout - 2*time.Second).String())
 	cmd.Dir = filepath.Join(r.cfg.Repo, pkgDir)
-	cmd.Env = append(os.Environ(), "ZZVERIF_SCRIPT="+sf, "ZZVERIF_ENTRY="+entry, "ZZVERIF_LOG="+logPath)
+	cmd.Env = append(os.Environ(), "ZZVERIF_SCRIPT="+sf, "ZZVERIF_ENTRY="+entry, "ZZVERIF_LOG="+logPath, "VERIF_TIER="+r.cfg.Tier)
 	out, err := cmd.CombinedOutput()
 	if ctx.Err() != nil {
 		return string(out) + "\nZZVERIF-TIMEOUT", nil
